@@ -153,9 +153,25 @@ inductive InitRes
   | ok (b : Block)
   | err           -- `Err(FluteError)`
 
+/-- `max_source_symbols` of `BlockDecoder::init` (/repo ac59f03): K_max = 8192 for Raptor (RFC 5053 5.1.2), K'_max = 56403 for
+    RaptorQ (RFC 6330 5.1.2); the FEC libraries panic beyond -/
+def tooManySymbols (s : Scheme) (k : Nat) : Bool :=
+  match s with
+  | .raptor => decide (8192 < k)
+  | .raptorQ => decide (56403 < k)
+  | _ => false
+
+/-- `symbol_length` of `BlockDecoder::push` (/repo 97d1aea): `Some(E)` for a RaptorQ block; a payload of another length is ignored
+    (the RaptorQ library panics on it) -/
+def Dec.wrongLength (d : Dec) (payload : Bytes) : Bool :=
+  match d with
+  | .rq _ _ e _ _ _ => payload.length != e
+  | _ => false
+
 /-- `BlockDecoder::init(oti, nb_source_symbols, block_size, sbn)` -/
 def Block.init (c : Codec) (b : Block) (o : Oti) (k blockSize sbn : Nat) : InitRes :=
   if b.initialized then .ok b else
+  if tooManySymbols o.scheme k then .err else
   let done (d : Option Dec) : InitRes := .ok { b with dec := d, initialized := true, blockSize := blockSize }
   match o.scheme with
   | .noCode => done (some (.noCode (List.replicate k none) 0 none))
@@ -179,6 +195,7 @@ def Block.push (c : Codec) (b : Block) (payload : Bytes) (esi : Nat) : Option Bl
   match b.dec with
   | none => none
   | some d =>
+    if d.wrongLength payload then some b else
     let d := d.pushSymbol c payload esi
     if d.canDecode c then
       let (d', ok) := d.decode c
